@@ -261,19 +261,21 @@ def build_harness(target="dirkdrv"):
     return out
 
 
-def build_dirk():
-    """Build the real dirk binary from /repo (tag off: the shipped program)."""
-    if "dirk" in _built:
-        return _built["dirk"]
+def build_dirk(verif=False):
+    """Build the real dirk binary from /repo (tag off: the shipped program; verif=True: the same program with the observation
+    points compiled in, used only to RECORD traces of it)."""
+    key = "dirk.verif" if verif else "dirk"
+    if key in _built:
+        return _built[key]
     os.makedirs(BUILD, exist_ok=True)
-    out = os.path.join(BUILD, "dirk.%d" % os.getpid())
-    p = subprocess.run(["go", "build", "-o", out, "."], cwd=REPO, env=GOENV,
+    out = os.path.join(BUILD, "%s.%d" % (key, os.getpid()))
+    p = subprocess.run(["go", "build"] + (["-tags", "verif"] if verif else []) + ["-o", out, "."], cwd=REPO, env=GOENV,
                        stdout=subprocess.PIPE, stderr=subprocess.STDOUT, text=True)
     if p.returncode != 0:
         raise Inconclusive("dirk build failed:\n" + p.stdout[-3000:])
     import atexit
     atexit.register(lambda f=out: os.path.exists(f) and os.remove(f))
-    _built["dirk"] = out
+    _built[key] = out
     return out
 
 
